@@ -55,14 +55,20 @@ def _build(sym, NL, NR, dom, compound, ragged, spelling, prefix, missing):
         lh = ['a', 'k'] + (['j'] if compound else [])
         rh = ['b', 'k'] + (['j'] if compound else [])
         kw = dict(key=('k', 'j') if compound else 'k') if spelling == 'key' else {}
-    if prefix:
+    if prefix is True or prefix == 'both':
         kw.update(lprefix='l_', rprefix='r_')
+    elif prefix == 'left':
+        kw.update(lprefix='l_')
+    elif prefix == 'right':
+        kw.update(rprefix='r_')
     return L, R, lh, rh, kw
 
 
 def _exp_header(lh, rh, prefix):
-    out = [('l_' + f if prefix else f) for f in lh]
-    out.append('r_b' if prefix else 'b')
+    lp = prefix in (True, 'both', 'left')
+    rp = prefix in (True, 'both', 'right')
+    out = [('l_' + f if lp else f) for f in lh]
+    out.append('r_b' if rp else 'b')
     return tuple(out)
 
 
@@ -184,7 +190,7 @@ def antijoin_op(sym, NL, NR, dom, compound=False, spelling='key', bs=None, rswap
         check(not ref_lt(lkeys[seen[x + 1]], lkeys[seen[x]]), 'not in ascending key order')
 
 
-def crossjoin_op(sym, N1, N2, N3, ragged, prefix):
+def crossjoin_op(sym, N1, N2, N3, ragged, prefix, missing=None):
     ns = [nrows(sym, 'n1', N1), nrows(sym, 'n2', N2)]
     if N3 is not None:
         ns.append(nrows(sym, 'n3', N3))
@@ -200,14 +206,14 @@ def crossjoin_op(sym, N1, N2, N3, ragged, prefix):
             rows.append(row)
         tables.append([hdr] + rows)
         hdrs.append(hdr)
-    out = [tuple(r) for r in petl.crossjoin(*tables, prefix=prefix)]
+    out = [tuple(r) for r in petl.crossjoin(*tables, prefix=prefix, missing=missing)]
     exp_hdr = []
     for t, hdr in enumerate(hdrs):
         exp_hdr.extend([('%d_%s' % (t + 1, f)) if prefix else f for f in hdr])
     check(out[0] == tuple(exp_hdr), 'header', out[0], exp_hdr)
     # expected: cartesian product, squared-up rows, row-major order
     def sq(r):
-        return (tuple(r) + (None, None))[:2]
+        return (tuple(r) + (missing, missing))[:2]
     exp = [()]
     for t in tables:
         exp = [e + sq(r) for e in exp for r in t[1:]]
@@ -257,6 +263,8 @@ def jobs(tier):
             add(op, 2, 1, 'O', ragged=True, miss='tag')
             add(op, 1, 2, 'O', ragged=True)
             add(op, 2, 2, 'O', spelling='lrkey', prefix=True)
+            add(op, 1, 1, 'O', prefix='left')
+            add(op, 1, 1, 'O', prefix='right')
             add(op, 2, 2, 'I', spelling='natural')
             add(op, 2, 2, 'O', bs=1)
         else:
@@ -286,6 +294,8 @@ def jobs(tier):
         p.update(kw)
         out.append(dict(name='antijoin/%dx%d/%s' % (NL, NR, dom) + ''.join('/%s=%s' % kv for kv in sorted(kw.items())),
                         func='antijoin_op', params=p, budget=120 if q else 900))
+    out.append(dict(name='crossjoin/2x2/ragged/missing=marker', func='crossjoin_op',
+                    params=dict(N1=2, N2=2, N3=None, ragged=True, prefix=False, missing='MISSING'), budget=120 if q else 600))
     for (a, b, c) in ([(2, 2, None), (1, 2, 1)] if q else [(3, 2, None), (2, 2, 2)]):
         for ragged in (False, True):
             for prefix in (False, True):
